@@ -384,5 +384,6 @@ def run(ctx):
     out.append(T.empty_repetition_rule(ctx.syn, "C16"))
     out.append(T.export_test_params_rule(ctx.syn, "C16"))
     out.append(T.where_clause_rule(ctx.syn, "C16"))
+    out.append(T.template_hygiene_rule(ctx.syn, "C16"))
     out.append(T.generics_rule(ctx.syn, "C16", rule="C16.R12"))
     return out
